@@ -86,6 +86,49 @@ func VerifC07_ClosedBeforeCycle() {
 	verifrt.Cover("ended")
 }
 
+// VerifC07_CycleInImportedModule: the call is made on module "app" (the module the watcher closes) while the cycle runs in
+// a function imported from module "lib" - entered directly from app (depth 1) or through another lib function (depth 2).
+// Closing app must stop the guest wherever it is spinning.
+//verif:opts split=shape:10 maxsteps=4000000
+func VerifC07_CycleInImportedModule() {
+	ctx := context.Background()
+	sh := verifCycles[verifrt.Choose("shape", len(verifCycles))]
+	depth := 1 + verifrt.Choose("depth", 2)
+	w := newVerifWorld(ctx)
+	lib := &verifModule{tableMin: -1, funcs: append(append([]verifFunc{}, sh.funcs...),
+		verifFunc{params: []byte{vI32}, export: "g", body: []byte{0x20, 0x00, 0x10, 0x00}})}
+	if sh.table {
+		lib.tableMin = 1
+		lib.elems = []uint32{0}
+	}
+	_, err := w.guest(ctx, lib, "lib", nil, true)
+	verifrt.Assert(err == nil, "by-construction valid module is accepted")
+	if err != nil {
+		return
+	}
+	imp := "f"
+	if depth == 2 {
+		imp = "g"
+	}
+	app := &verifModule{tableMin: -1, imports: []verifImport{{module: "lib", name: imp, params: []byte{vI32}}},
+		funcs: []verifFunc{{params: []byte{vI32}, export: "run", body: []byte{0x20, 0x00, 0x10, 0x00}}}}
+	va, err := w.guest(ctx, app, "app", nil, true)
+	verifrt.Assert(err == nil, "importer accepted")
+	if err != nil {
+		return
+	}
+	code := []uint32{sys.ExitCodeContextCanceled, sys.ExitCodeDeadlineExceeded}[verifrt.Choose("cause", 2)]
+	_ = va.inst.CloseWithExitCode(ctx, code)
+	x := verifrt.U32("x")
+	verifrt.SetStepBudget(3000000, "a guest cycle in an imported module keeps running although the module the call was made on was closed")
+	_, err = va.inst.ExportedFunction("run").Call(ctx, uint64(x))
+	verifrt.SetStepBudget(0, "")
+	ec, isExit := verifExitCode(err)
+	overflow := err != nil && !isExit && verifIsStackOverflow(err)
+	verifrt.Assert(isExit && ec == code || overflow, "the call ends with the exit error carrying the close cause (or call-stack exhaustion)")
+	verifrt.Cover("ended")
+}
+
 func verifIsStackOverflow(err error) bool {
 	return errorsIs(err, wasmruntime.ErrRuntimeStackOverflow)
 }
